@@ -1909,6 +1909,11 @@ def r155_global_variable(pe, rep):
                         ty = Obj('Type', lazy=True, label='ty')
                         ty.fields['name'] = Obj('Token', lazy=True, label='ty.name')
                         ty.fields['align'] = Sym('ty.align', 'int')
+                        # a complete scalar object: which flags the object gets does not depend on its type, and the composite type a
+                        # redeclared incomplete array takes from the earlier declaration is C04's R04.31
+                        if 'TY_INT' in u.enums:
+                            ty.fields['kind'] = u.enums['TY_INT']
+                            ty.fields['size'] = 4
                         ctx.c15_ty = ty
                         return ty
 
